@@ -20,6 +20,7 @@ Definition dispatch (tag : string) (s : sexp) : sexp :=
   else if String.eqb tag "staticlab" then run_staticlab s
   else if String.eqb tag "gziplab" then run_gziplab s
   else if String.eqb tag "cookielab" then run_cookielab s
+  else if String.eqb tag "cookiehist" then run_cookiehist s
   else if String.eqb tag "errorlab" then run_errorlab s
   else if String.eqb tag "flawlab" then run_flawlab s
   else if String.eqb tag "renderlab" then run_renderlab s
